@@ -3,8 +3,9 @@ package props
 
 import (
 	_ "go.amzn.com/verifh/c01"
+	_ "go.amzn.com/verifh/c03"
 	_ "go.amzn.com/verifh/c10"
-	_ "go.amzn.com/verifh/c14"
 	_ "go.amzn.com/verifh/c11"
+	_ "go.amzn.com/verifh/c14"
 	_ "go.amzn.com/verifh/smoke"
 )
